@@ -110,3 +110,25 @@ PROPS["C06"] = dict(
     assumptions=EXEC_ASSUME + ["the same response key selected n times may yield 1..n entries for one failing position (ggql resolves each occurrence)"],
     design_ref="DESIGN.md section 5 C06",
 )
+
+PROPS["C10"] = dict(
+    pkg="exec", test="TestC10", engine="exec",
+    quick=dict(checks=6000, shards=3), thorough=dict(checks=320000, shards=16),
+    nt_floor=dict(quick=1500, thorough=80000),
+    must_classes=["defect=unknown-field", "defect=undeclared-arg", "defect=omitted-required-arg", "defect=unknown-directive",
+                  "defect=misplaced-directive", "defect=undefined-condition-inline", "defect=undefined-condition-fragment",
+                  "container=object", "container=interface", "container=root-operation-type", "partial-data-kept", "document-rejected"],
+    level="exploration",
+    technique="mutation-based property testing: one named defect injected into a request that is valid by construction; error presence, resolver call log and sibling data checked against the defect-free reference",
+    rule="A valid generated request gets exactly one added defective selection (alias dfct): unknown field, undeclared argument (with and"
+         " without the declared ones), omitted or null required argument, unknown directive, directive at a location it does not allow (field,"
+         " inline fragment, spread, operation), undefined type condition (inline / named fragment) - in any reachable or unreachable"
+         " selection set, under root, object, interface (reflection) and union-member containers, strategies R / root / reflection / mixed."
+         " Oracle: errors non-empty (naming the field/argument); no logged resolver call for the defective selection / with the undeclared"
+         " argument; if data is present it equals the defect-free reference apart from the defective key. Non-trivial = depth >= 2 or a"
+         " non-object container.",
+    level_text="Every defect kind of the statement is enumerated per case order; positions and contexts are sampled.",
+    level_note="Trusted: reference executor for the defect-free request, fixtures' call log. Argument defects under reflection are exercised in the C03 universe (methods), not with reflect.StructOf fields.",
+    assumptions=EXEC_ASSUME,
+    design_ref="DESIGN.md section 5 C10",
+)
